@@ -289,6 +289,8 @@ def _work(case):
                 viol = pl.oracle(case, out) or []
             except CaseTimeout:
                 viol = [("oracle-timeout", "")]
+            except Exception as e:
+                viol = [("oracle-exception", "%s: %s\n%s" % (type(e).__name__, e, traceback.format_exc()[-1200:]))]
         else:
             viol = [("impl-" + err.split(":")[0].split("\n")[0], err)]
         try:
